@@ -640,3 +640,13 @@ class MimicSites(Lemma):
 
 CONTRACTS = [ExecCall(), ExecMethod(), ExecGet(), WrapAsync(), WrapAsyncFactory(), TracedSync(), TracedAsync(), ArgumentsTraceOf(), ResultTraceOf(), MimicSync(),
              MimicAsync(), MimicSites()]
+
+
+class AsynchronousShape(DecoratorShape):
+    file, func, name = ASYNC, "asynchronous", "C18/asynchrony:asynchronous(decorator-shape)"
+    props = ("C18",)
+    inner = "wrap"
+    closure_kw = "wrapped"
+
+
+CONTRACTS = CONTRACTS + [AsynchronousShape()]
